@@ -19,6 +19,11 @@ func enable1344(jt *JumpTable) {
 
 // opChainID implements CHAINID opcode
 func opChainID(pc *uint64, interpreter *KVM, scope *ScopeContext) ([]byte, error) {
+	if interpreter.chainConfig.ChainID == nil {
+		// a chain config without a chain id reports 0 (as ChainConfig.Rules does)
+		scope.Stack.push(new(uint256.Int))
+		return nil, nil
+	}
 	chainId, _ := uint256.FromBig(interpreter.chainConfig.ChainID)
 	scope.Stack.push(chainId)
 	return nil, nil
